@@ -41,6 +41,11 @@ class _RabbitConsumer(ConsumerT):
         self.__returned: tuple[RoutingKeyT, str, ParametersT] | None = None
         self.__is_paused: bool = False
         self.__is_consuming: bool = False
+        # ... or which was returned by `consume()` to a caller cancelled before receiving it
+        self.consume.on_undelivered_result = self.__keep_undelivered  # type: ignore[attr-defined]
+
+    def __keep_undelivered(self, msg: tuple[RoutingKeyT, str, ParametersT]) -> None:
+        self.__returned = msg
 
     async def consume(self) -> tuple[RoutingKeyT, str, ParametersT]:
         while True:
